@@ -81,14 +81,15 @@ fn check_release(b: &mut Buffer, up_to: usize) {
 
 /// first transmission of everything, partial acknowledgement, retransmission of a range that
 /// overlaps what was released / the chunk boundary
-fn scenario(cuts: &[usize], release_at: usize, ra: usize, re: usize) {
+fn scenario(cuts: &[usize], first_from: usize, release_at: usize, ra: usize, re: usize) {
     let s = stream();
     let mut b = Buffer::default();
     assert!(b.is_empty() && b.total_len().as_u64() == 0 && b.head().as_u64() == 0, "C12/buffer.default/empty");
     fill(&mut b, s, cuts);
     {
         let mut viewer = b.viewer();
-        check_view(&mut viewer, &b, s, 0, N, true);
+        // first transmission starts inside a chunk (non-zero offset into the chunk) and runs to the end
+        check_view(&mut viewer, &b, s, first_from, N, true);
     }
     check_release(&mut b, release_at);
     {
@@ -103,7 +104,7 @@ fn scenario(cuts: &[usize], release_at: usize, ra: usize, re: usize) {
 //     everything but the bytes concrete): all four harnesses ran into the 1800 s timeout or the memory
 //     cap (single chunk: 1373 s then out of memory) -- like the design-phase probe with symbolic shape.
 //   * this version: one push sequence, one full view, one release, one retransmission view per harness.
-//@ harness props=C12 tier=thorough level=bounded timeout=2700 bound="4 symbolic bytes in chunks 2+2; release at 1; retransmit [1,4)"
+//@ harness props=C12 tier=thorough level=bounded timeout=2700 bound="4 symbolic bytes in chunks 2+2; first view [1,4); release at 1; retransmit [1,4)"
 //@ fn Buffer::push
 //@ fn Buffer::release
 //@ fn Viewer::next_view
@@ -113,17 +114,17 @@ fn scenario(cuts: &[usize], release_at: usize, ra: usize, re: usize) {
 #[kani::proof]
 #[kani::unwind(6)]
 fn vq_c12_buffer_view_chunks_2_2() {
-    scenario(&[2, 2], 1, 1, N);
+    scenario(&[2, 2], 1, 1, 1, N);
 }
 
-//@ harness props=C12 tier=thorough level=bounded timeout=2700 bound="4 symbolic bytes in chunks 1+3; release at 2; retransmit [2,3)"
+//@ harness props=C12 tier=thorough level=bounded timeout=2700 bound="4 symbolic bytes in chunks 1+3; first view [2,4); release at 2; retransmit [2,3)"
 //@ fn Buffer::push
 //@ fn Buffer::release
 //@ fn Viewer::next_view
 #[kani::proof]
 #[kani::unwind(6)]
 fn vq_c12_buffer_view_chunks_1_3() {
-    scenario(&[1, 3], 2, 2, 3);
+    scenario(&[1, 3], 2, 2, 2, 3);
 }
 
 //@ harness props=C12 tier=thorough level=bounded timeout=1800 bound="4 symbolic bytes: release_all / push after release_all / clear"
